@@ -141,7 +141,8 @@ func (sm *stateMachine) executeAction(t *T) bool {
 func runAction(t *T, action func(*T)) (invalid bool, skipped bool) {
 	defer func(draws int) {
 		if r := recover(); r != nil {
-			if _, ok := r.(invalidData); ok {
+			// a skip does not hide a failure the action has signalled before it
+			if _, ok := r.(invalidData); ok && !t.Failed() {
 				invalid = true
 				skipped = t.draws == draws
 			} else {
